@@ -176,7 +176,7 @@ def match(ctx, rule, construct, found, specs, names=None, body=None, mod=None, n
             allowed |= _PARTNER.get(t, set())
         extra = fv - allowed
         # numeric constants that differ are a semantic change, not new vocabulary
-        extra = {t for t in extra if not _is_number(t) and t not in ("Not", "USub", "Is", "IsNot", "Eq", "NotEq", "Lt", "LtE", "Gt", "GtE", "In", "NotIn", "Add", "Sub", "Mult", "Div", "FloorDiv", "Mod", "Pow")}
+        extra = {t for t in extra if not _is_number(t) and t not in ("Not", "USub", "Is", "IsNot", "Eq", "NotEq", "Lt", "LtE", "Gt", "GtE", "In", "NotIn", "Add", "Sub", "Mult", "Div", "FloorDiv", "Mod", "Pow", "MatMult", "RShift", "LShift")}
         # an inserted negation, comparison or arithmetic step is a change of meaning, not a new idiom
         if not extra:
             ctx.ob(rule, construct, False, found=ast.unparse(e), required=req, mod=mod, node=node or found, sig=sig or "shape")
@@ -220,7 +220,7 @@ def match_stmts(ctx, rule, construct, body, specs, names=None, mod=None, node=No
         for t in vocab(w):
             allowed.add(t)
             allowed |= _PARTNER.get(t, set())
-    OPS = ("Not", "USub", "Add", "Sub", "Mult", "Div", "FloorDiv", "Mod", "Pow", "Lt", "LtE", "Gt", "GtE", "Eq", "NotEq", "In", "NotIn", "Is", "IsNot")      # arithmetic / comparison changes are changes of meaning
+    OPS = ("Not", "USub", "Add", "Sub", "Mult", "Div", "FloorDiv", "Mod", "Pow", "MatMult", "RShift", "LShift", "Lt", "LtE", "Gt", "GtE", "Eq", "NotEq", "In", "NotIn", "Is", "IsNot")      # arithmetic / comparison changes are changes of meaning
 
     bound = {x.id for g in got for x in ast.walk(g) if isinstance(x, ast.Name) and isinstance(x.ctx, ast.Store)}       # locals may carry any name
 
